@@ -648,11 +648,12 @@ def harnesses(tier):
 EXPECT = ["C12.inverse_tail_integral_inverts_the_tail_integral", "C12.fast_eq_general.2d", "C12.fast_eq_general.3d", "C12.tail_integral_is_signed_tail_mass", "C12.margin_sum.2d", "C12.margin_sum.3d",
           "C12.submargin_mass_is_I_margin_volume.3d", "C12.additive_split.2d", "C12.additive_split.3d", "C12.nonneg_in_orthant.2d",
           "C12.nonneg_in_orthant.3d",
-          "C12.integer_end_points_are_numbers_too.2d", "C12.integer_end_points_are_numbers_too.3d"]
+          "C12.integer_end_points_are_numbers_too.2d", "C12.integer_end_points_are_numbers_too.3d",
+          "C12.inverse_tail_integral_is_clamped_only_beyond_the_range"]
 
 
 def main(tier):
-    bounds = {"histories_and_variants": 'positive-side intervals starting exactly at 0 in the non-negativity / F-volume obligations (an upper end at 0 on the negative side is not an F-volume: outside)',
+    bounds = {"histories_and_variants": 'positive-side intervals starting exactly at 0 in the non-negativity / F-volume obligations (an upper end at 0 on the negative side is not an F-volume: outside); integer end points (concrete rectangles); inverse tail integral: a clamped answer must be justified',
               "dimensions": "2 and 3", "rectangles": "every combination of per-coordinate interval kinds (negative side, positive side, straddling zero; "
               "finite or infinite end points as listed per harness), end points arbitrary reals",
               "outside": "'= integral of the joint density' (needs calculus on an arbitrary F); inverse_tail_integral (TOMS748 root search in C); "
